@@ -32,7 +32,9 @@ CONSTANTS Ids, Items,
           Hras,         \* accuracy modes offered to New
           MaxN,
           MergeCoin     \* "own": pinned tree (merge keeps its own, possibly never drawn coin) - negative config;
-                        \* "adopt": notes/fixes/req_merge_coin.diff (an even-state compactor adopts the coin of an odd-state one)
+                        \* "adopt": the fix (an even-state compactor adopts the coin of an odd-state one);
+                        \* "adopt0": negative config - only a state-0 compactor adopts it (misses a never-compacted compactor
+                        \*           whose even non-zero state was itself acquired by a merge)
 VARIABLES sk, obj, ens
 dvars == <<sk, obj, ens>>
 
@@ -75,7 +77,9 @@ Compact(c, next, hra, coinIn) ==
       used |-> IF odd THEN 0 ELSE 1]
 \* req_compactor::merge
 CMerge(a, b) ==
-  LET coin == IF MergeCoin = "adopt" /\ a.state % 2 = 0 /\ b.state % 2 = 1 THEN b.coin ELSE a.coin
+  LET coin == IF /\ MergeCoin \in {"adopt", "adopt0"} /\ b.state % 2 = 1
+                    /\ (IF MergeCoin = "adopt" THEN a.state % 2 = 0 ELSE a.state = 0)
+                 THEN b.coin ELSE a.coin
   IN [EnsureAll([a EXCEPT !.state = BitOr(@, b.state), !.coin = coin]) EXCEPT !.items = MergeSorted(a.items, b.items)]
 
 (* sketch: lv = sequence of compactors *)
@@ -200,4 +204,6 @@ ESchedule == \A i \in ELive : LET e == ens[i] IN
 ETotalN == FoldLeft(LAMBDA a, i : a + ens[i].leaves[1].n, 0, SetToSeq(ELive))
 ENBound == ETotalN <= MaxN /\ \A i \in ELive : Len(ens[i].leaves) <= 64
 ESmallOthers == \A i \in ELive : i # 1 => ens[i].leaves[1].n <= 5
+\* three-way merge shapes: sketch 2 may reach an even non-zero level-0 state (two compactions), sketch 3 an odd one
+EThree == \A i \in ELive : (i = 2 => ens[i].leaves[1].n <= 9) /\ (i = 3 => ens[i].leaves[1].n <= 4)
 ====
